@@ -30,6 +30,10 @@ type rqModel struct {
 	unordM   map[uint32][]rqChunk // I-DATA: incomplete unordered sets by MID
 	ready    [][]rqChunk          // complete unordered messages in completion order
 	readyMID map[uint32]bool
+	// I-DATA: highest unordered MID announced as skipped; a fragment of that message (or of an
+	// earlier one) arriving afterwards belongs to nothing that will ever be completed
+	skippedU     uint32
+	haveSkippedU bool
 }
 
 func newRQModel(idata bool, base uint32) *rqModel {
@@ -118,6 +122,9 @@ func (m *rqModel) push(c rqChunk) {
 					return
 				}
 			}
+			return
+		}
+		if m.haveSkippedU && (c.seq == m.skippedU || sna32lt(c.seq, m.skippedU)) {
 			return
 		}
 		if m.readyMID[c.seq] {
@@ -246,6 +253,9 @@ func (m *rqModel) fwdUnorderedTSN(cum uint32) {
 }
 
 func (m *rqModel) fwdUnorderedMID(last uint32) {
+	if !m.haveSkippedU || sna32lt(m.skippedU, last) {
+		m.skippedU, m.haveSkippedU = last, true
+	}
 	for k := range m.unordM {
 		if k == last || sna32lt(k, last) {
 			delete(m.unordM, k)
@@ -478,8 +488,20 @@ func c11Reassembly(j *Job) {
 						j.Stats.NewStates++
 						if len(path) >= depth {
 							// leaf: deliver the rest of the universe, then drain; model and real must agree to the end
+							// (the sender never completes an unordered message it has announced as abandoned)
+							abandoned := func(seq uint32) bool {
+								if !idata {
+									return false
+								}
+								for _, p := range path {
+									if p.kind == 4 && (seq == p.arg || sna32lt(seq, p.arg)) {
+										return true
+									}
+								}
+								return false
+							}
 							for _, o := range uni {
-								if pushedU[o.chunk.tsn] {
+								if pushedU[o.chunk.tsn] || (o.chunk.u && abandoned(o.chunk.seq)) {
 									continue
 								}
 								if msg := applyRQ(r, m, o, 7); msg != "" {
@@ -491,6 +513,19 @@ func c11Reassembly(j *Job) {
 								if msg := applyRQ(r, m, rqOp{kind: 1, chunk: rqChunk{idata: idata}}, 7); msg != "" {
 									j.failSeq("reassembly", caseName, fmt.Sprintf("%s after %v, draining: %s", caseName, path, msg), fmt.Sprint(path))
 									return
+								}
+							}
+							// everything that can ever be completed has been read: what is still held
+							// can only be fragments of abandoned messages, and those never go away
+							if idata && r.getNumBytes() != 0 {
+								only := true
+								for mid := range r.unorderedMIDMap {
+									if !abandoned(mid) {
+										only = false
+									}
+								}
+								if only && len(r.orderedMID) == 0 && len(r.ordered) == 0 {
+									j.failSeq("reassembly.abandoned-fragment-kept", caseName, fmt.Sprintf("%s after %v, everything completed and read: %d bytes are still held, all of them fragments of unordered messages the peer had announced as abandoned before the fragments arrived (they are never purged: the window never returns to the full buffer)", caseName, path, r.getNumBytes()), fmt.Sprint(path))
 								}
 							}
 							return
